@@ -639,6 +639,17 @@ class VRaise(_VFloatOp):
         raise _odd_exception(exc)
 
 
+class VBoomExit(_VFloatOp):
+    """Fault component: calls sys.exit(9) (SystemExit, a BaseException that is neither Exception nor KeyboardInterrupt)
+    when fuse >= 1.0, passes data through otherwise - what a wrapped command-line tool does on error."""
+
+    def _process_logic(self, data, fuse: float = 1.0):
+        REC.add("VBoomExit", data, {"fuse": fuse})
+        if fuse >= 1.0:
+            raise SystemExit(9)
+        return FloatDataType(data.data)
+
+
 class VInterrupt(_VFloatOp):
     """Fault component: raises a KeyboardInterrupt subclass."""
 
